@@ -1051,6 +1051,12 @@ pub fn c18_text(pool: &PhrasePool, rng: &mut Rng) -> String {
 }
 
 pub fn c18_random(ctx: &Ctx, pool: &PhrasePool, rng: &mut Rng, seed: u64) -> History {
+    c18_random_under(ctx, pool, rng, seed, None)
+}
+
+/// `forced`: the database is opened on disk, over a directory that needs rebuilding, while an I/O
+/// error is injected at that hit of that hook point (enumerated over all points by the caller).
+pub fn c18_random_under(ctx: &Ctx, pool: &PhrasePool, rng: &mut Rng, seed: u64, forced: Option<(String, usize)>) -> History {
     // swarm: small scripts over the whole phrase pool, or large scripts over a small per-script
     // pool (so that phrases looked up early come back after many other lookups)
     let large = rng.chance(1, 3);
@@ -1108,7 +1114,7 @@ pub fn c18_random(ctx: &Ctx, pool: &PhrasePool, rng: &mut Rng, seed: u64) -> His
             }
         }
     }
-    let (mode, label) = if rng.chance(3, 4) { (Mode::Disk, "disk") } else { (Mode::Mem, "mem") };
+    let (mode, label) = if rng.chance(3, 4) || forced.is_some() { (Mode::Disk, "disk") } else { (Mode::Mem, "mem") };
     let mut steps = Vec::new();
     if mode == Mode::Disk {
         steps.push(Step::Fabricate { state: state(true, MetaSpec::Current, IndexSpec::Complete) });
@@ -1119,7 +1125,12 @@ pub fn c18_random(ctx: &Ctx, pool: &PhrasePool, rng: &mut Rng, seed: u64) -> His
     // like any other (the isolation handles are opened afterwards, without a fault).
     let mut faults = Vec::new();
     let mut label = label.to_string();
-    if rng.chance(1, 6) {
+    if let Some((point, k)) = forced {
+        steps.clear();
+        steps.push(Step::Fabricate { state: state(true, MetaSpec::OtherHash, IndexSpec::Foreign) });
+        faults.push(Fault::Fail { point: point.clone(), k, interrupted: false });
+        label = format!("{label} opened under fail@{point}#{k}");
+    } else if rng.chance(1, 6) {
         if mode == Mode::Disk && rng.chance(1, 2) {
             // a directory that needs a rebuild, so that the rebuild points are reached
             steps.clear();
